@@ -45,7 +45,7 @@ func ruleVolumeUpdatesFlow(c *core.Ctx) {
 	}
 	info := d.Pkg.TypesInfo
 	key := declKey(d)
-	effs := amountEffects(info, d.Decl.Body)
+	effs := amountEffectsScope(fnScope(c, d, 1))
 	got := effectSigs(effs)
 	want := []string{"(Input,+,Destination)", "(Output,+,Source)"}
 	c.Check(strings.Join(got, " ") == strings.Join(want, " "), "FLOW/volume-updates", key+":effects", pos(c, d.Decl),
@@ -59,19 +59,72 @@ func ruleVolumeUpdatesFlow(c *core.Ctx) {
 	// The posting must be registered under its source and its destination; the only
 	// early exit from the registration loop is the source==destination duplicate.
 	var regLoop *ast.RangeStmt
-	ast.Inspect(d.Decl.Body, func(n ast.Node) bool {
-		if rs, ok := n.(*ast.RangeStmt); ok && regLoop == nil && strings.HasSuffix(astx.SelectorPath(rs.X), ".Postings") {
-			regLoop = rs
-			return false
-		}
-		return true
-	})
+	var regEnv *originEnv
+	for _, e := range scopeEnvs(c, d) {
+		ast.Inspect(e.d.Decl.Body, func(n ast.Node) bool {
+			if rs, ok := n.(*ast.RangeStmt); ok && regLoop == nil && strings.HasSuffix(e.origin(rs.X), ".Postings") {
+				regLoop, regEnv = rs, e
+				return false
+			}
+			return true
+		})
+	}
 	if regLoop == nil {
-		c.Unknown("FLOW/volume-updates", key+":registration-loop", pos(c, d.Decl), "no loop over tx.Postings found")
+		c.Unrecognised("FLOW/volume-updates", key+":registration-loop", pos(c, d.Decl), "no loop over tx.Postings found in VolumeUpdates or its direct helpers")
 		return
 	}
+	info = regEnv.info
+	regBody := regEnv.d.Decl.Body
+	// appendsTwoLevel: the node appends into m[..][..]
+	appendsTwoLevel := func(n ast.Node) bool {
+		found := false
+		ast.Inspect(n, func(x ast.Node) bool {
+			as, ok := x.(*ast.AssignStmt)
+			if !ok || len(as.Rhs) != 1 || len(as.Lhs) != 1 {
+				return true
+			}
+			call, ok := as.Rhs[0].(*ast.CallExpr)
+			if !ok {
+				return true
+			}
+			if id, ok := call.Fun.(*ast.Ident); ok && id.Name == "append" {
+				if ix, ok := as.Lhs[0].(*ast.IndexExpr); ok {
+					if _, ok := ix.X.(*ast.IndexExpr); ok {
+						found = true
+					}
+				}
+			}
+			return true
+		})
+		return found
+	}
 	roles := map[string]token.Pos{}
+	viaHelper := false
 	ast.Inspect(regLoop.Body, func(n ast.Node) bool {
+		// registration through a local closure or a helper: register(posting.Source, posting)
+		if call, ok := n.(*ast.CallExpr); ok {
+			var body ast.Node
+			if id, ok := call.Fun.(*ast.Ident); ok {
+				if fl, ok := ast.Unparen(resolveLocal(info, regBody, id)).(*ast.FuncLit); ok {
+					body = fl.Body
+				} else if f := astx.Callee(info, call); f != nil {
+					if dd := index(c).Decls[f]; dd != nil && dd.Decl.Body != nil {
+						body = dd.Decl.Body
+					}
+				}
+			}
+			if body != nil && appendsTwoLevel(body) {
+				for _, a := range call.Args {
+					if r := roleOfExpr(a); r != "" {
+						viaHelper = true
+						if _, seen := roles[r]; !seen {
+							roles[r] = call.Pos()
+						}
+					}
+				}
+			}
+			return true
+		}
 		as, ok := n.(*ast.AssignStmt)
 		if !ok || len(as.Rhs) != 1 {
 			return true
@@ -95,6 +148,11 @@ func ruleVolumeUpdatesFlow(c *core.Ctx) {
 		}
 		return true
 	})
+	_ = viaHelper
+	if len(roles) == 0 {
+		c.Unrecognised("FLOW/volume-updates", key+":registers-both-sides", pos(c, regLoop), "the registration of postings under their accounts is not in a shape the rule reads")
+		return
+	}
 	_, hasS := roles["Source"]
 	_, hasD := roles["Destination"]
 	c.Check(hasS && hasD, "FLOW/volume-updates", key+":registers-both-sides", pos(c, regLoop),
@@ -116,7 +174,7 @@ func ruleVolumeUpdatesFlow(c *core.Ctx) {
 		} else {
 			p = n.Pos()
 		}
-		facts := astx.FactsAt(info, d.Decl.Body, p)
+		facts := astx.FactsAt(info, regBody, p)
 		same := false
 		for _, f := range facts {
 			if be, ok := ast.Unparen(f.Cond).(*ast.BinaryExpr); ok && be.Op == token.EQL && f.Positive {
